@@ -53,6 +53,10 @@ def find_match(n, min_arms):
     return None
 
 
+LOCAL_FNS = {}
+_INLINING = []
+
+
 def walk_nodes(n):
     """all nodes of a syntax subtree in source order"""
     if isinstance(n, dict):
@@ -110,6 +114,13 @@ def events(n, out):
             out.append(("read", "inline-image"))
             return
         events(n.get("arg_trees"), out)
+        # a private helper of the same file (e.g. the operand loop shared by two arms): its events happen here
+        if fn in LOCAL_FNS and fn not in _INLINING and len(_INLINING) < 3:
+            _INLINING.append(fn)
+            try:
+                events(LOCAL_FNS[fn]["body"], out)
+            finally:
+                _INLINING.pop()
         return
     if k == "mcall":
         recv = norm(n["recv"])
@@ -604,6 +615,11 @@ def run(ctx):
     ctx.count("bodies", len(f.bodies))
     crate_files = {b["_file"] for b in f.bodies.values()}
     ast = adj.Ast(only=crate_files)
+    ast.renames = {o.split("::")[-1]: n.split("::")[-1] for o, n in getattr(f, "renamed", {}).items()}
+    LOCAL_FNS.clear()
+    for fn_ in ast.fns:
+        if fn_["rel"] == "pdf/src/content.rs" and not fn_.get("cfg_test") and fn_["name"] not in ("serialize_ops", "parse", "add", "inline_image"):
+            LOCAL_FNS.setdefault(fn_["name"], fn_)
     rt, m = reader_table(ast)
     if rt is None:
         ctx.lost("C08-TABLE", "match on the operator keyword in OpBuilder::add")
